@@ -13,12 +13,13 @@ Proof. exact exactb_spec. Qed.
 (* ---- the encoder + cache model (Async/Encoder.v, tied to encoding.rs + cache.rs
    by call-for-call equality of the provider-call history on every synchronous
    run): the property itself, for every provider, problem, cache contents,
-   trail history and sequence of encode requests ---- *)
+   trail history, sequence of encode requests and completion order of the
+   encoder's futures (the events say which pending future completes next) ---- *)
 From Resolvo Require Import Async.EncoderClosed.
 
 (* at most once, over the lifetime of a solver (H0 = calls of earlier solves) *)
-Theorem C09_model_once : forall U P H0 c0 fuel evs st,
-  CInv U c0 H0 -> enc_solve U P fuel (estate0 c0) [] evs = Some st ->
+Theorem C09_model_once : forall U P H0 c0 evs st work,
+  CInv U c0 H0 -> enc_run U P (estate0 c0) [] [] evs = Some (st, work) ->
   let H := H0 ++ e_calls st in
   NoDup (flat_map k_cands H) /\ NoDup (flat_map k_deps H) /\
   NoDup (flat_map k_match H) /\ NoDup (flat_map k_nonmatch H) /\
@@ -28,21 +29,21 @@ Proof. exact enc_once. Qed.
 
 (* causal: dependencies only of queued solvables, candidates only for names
    their dependencies mention, filter/sort only for version sets they mention *)
-Theorem C09_model_causal : forall U P c0 fuel evs st,
-  enc_solve U P fuel (estate0 c0) [] evs = Some st -> Forall (call_just U P (e_sols st)) (e_calls st).
+Theorem C09_model_causal : forall U P c0 evs st work,
+  enc_run U P (estate0 c0) [] [] evs = Some (st, work) -> Forall (call_just U P (e_sols st)) (e_calls st).
 Proof. exact enc_causal. Qed.
 
 (* lazy: without hints, dependencies are fetched only for solvables the solver
    asked for (the ones it assigned true: req_true_ok is checked on every run) *)
-Theorem C09_model_lazy : forall U P, nohints U -> forall c0 H0 fuel evs st,
-  CInv U c0 H0 -> enc_solve U P fuel (estate0 c0) [] evs = Some st ->
+Theorem C09_model_lazy : forall U P, nohints U -> forall c0 H0 evs st work,
+  CInv U c0 H0 -> enc_run U P (estate0 c0) [] [] evs = Some (st, work) ->
   forall s, In (CDeps s) (e_calls st) -> In (Some s) (requested evs).
 Proof. exact enc_lazy. Qed.
 
 (* exact: on a fresh solver without hints, dependencies for exactly the requested
    solvables and candidates for exactly the names they and the root mention *)
-Theorem C09_model_exact : forall U P fuel evs st,
-  nohints U -> enc_solve U P fuel (estate0 cache0) [] evs = Some st ->
+Theorem C09_model_exact : forall U P evs st,
+  nohints U -> enc_run U P (estate0 cache0) [] [] evs = Some (st, []) ->
   (forall s, In (CDeps s) (e_calls st) <-> In (Some s) (requested evs)) /\
   (forall n, In (CCands n) (e_calls st) <-> exists so, In so (requested evs) /\ In n (mentioned U P so)).
 Proof. exact enc_exact. Qed.
